@@ -366,6 +366,62 @@ def r02_9(ctx: Ctx, rule: str = "R02.9") -> None:
                   "symbolic link then raises AttributeError, the link and everything after it are missing from the archive", construct="origin deref")
 
 
+def r02_11(ctx: Ctx, rule: str = "R02.11") -> None:
+    """'symbolic links with identical targets': the text of a relative link goes through the archive untouched.  pathlib rewrites './f' to
+    'f', 'e/' to 'e', '..//g' to '../g'.  (a) in _find_link_target every value the function returns for a relative text derives from the
+    readlink() result without a `pathlib.Path(...)`/`PurePath(...)` conversion that is not confined to win32 or to the absolute-text arm;
+    (b) in Worker._extract_single the argument of `symlink_to` / `os.symlink` is the decoded string itself, not a pathlib.Path built from it."""
+    f = ctx.prog.func("py7zr", "Worker._find_link_target")
+    rets = [r for r in walk(f.node) if isinstance(r, ast.Return) and r.value is not None]
+    ctx.floor(rule, len(rets), 1, "returns of _find_link_target")
+
+    def is_pathlib_conv(e: ast.AST) -> bool:
+        return any(isinstance(x, ast.Call) and (dotted(x.func) or "").split(".")[-1] in ("Path", "PurePath", "PurePosixPath", "PosixPath", "normpath") for x in ast.walk(e))
+
+    bad = []
+    for n in [n for n in walk(f.node) if isinstance(n, ast.Assign) and isinstance(n.targets[0], ast.Name) and is_pathlib_conv(n.value)]:
+        name = n.targets[0].id
+        facts = q.facts_at(f, n)
+        confined = any(pol and isinstance(cd, ast.Compare) and "platform" in norm(cd.left) and "win32" in norm(cd) for cd, pol in facts) or \
+            any(pol and isinstance(cd, ast.Call) and attr_tail(cd) in ("isabs", "is_absolute") for cd, pol in facts)
+        if confined:
+            continue
+        # does the converted value reach a return?
+        for r in rets:
+            if any(isinstance(x, ast.Name) and x.id == name for x in ast.walk(q.expand_locals(f, r.value))) or norm(r.value) == name or \
+                    any(isinstance(v, ast.Name) and v.id == name for rv in q.assigned_values(f, norm(r.value)) for v in ast.walk(rv)):
+                bad.append(n)
+    ctx.check(not bad, rule, f, bad[0] if bad else f.node, "a relative link text is stored as readlink() gave it",
+              (f"`{norm(bad[0])}`: " if bad else "") + "the text of every link is passed through pathlib before it is stored: './f' becomes 'f', 'e/' becomes 'e', '..//g' becomes '../g' - the "
+              "extracted links do not have identical targets", construct="link text normalised on write")
+    es = ctx.prog.func("py7zr", "Worker._extract_single")
+    mk = [c for c in q.calls(es) if attr_tail(c) == "symlink_to" or dotted(c.func) == "os.symlink"]
+    ctx.floor(rule, len(mk), 1, "symlink creation in _extract_single")
+    for c in mk:
+        arg = c.args[0] if c.args else None
+        conv = arg is not None and (is_pathlib_conv(arg) or any(is_pathlib_conv(v) for v in (q.assigned_values(es, arg.id) if isinstance(arg, ast.Name) else [])))
+        ctx.check(not conv, rule, es, c, "the link is created from the decoded text itself",
+                  f"`{norm(c)}`: the decoded link text is turned into a pathlib.Path before the link is created, which rewrites './f', 'e/', '..//g' (also for archives of other writers)",
+                  construct="link text normalised on extract")
+
+
+def r02_12(ctx: Ctx, rule: str = "R02.12") -> None:
+    """a link of the tree is re-created whenever it leads to a place inside the destination AS THE SYSTEM FOLLOWS IT.  The textual check
+    (is_path_valid -> canonical_path) collapses 'name/..' without asking whether `name` is a link: with s -> a/b/c/d the valid link
+    u -> s/../../../t (= a/t) looks like '../../t' and is refused.  On the path to `symlink_to` no positive fact is the textual check
+    applied to the joined link target (containment is C03's business and is decided by the link-resolving check, R03.2/R03.6)."""
+    es = ctx.prog.func("py7zr", "Worker._extract_single")
+    mk = [c for c in q.calls(es) if attr_tail(c) == "symlink_to" or dotted(c.func) == "os.symlink"]
+    ctx.floor(rule, len(mk), 1, "symlink creation in _extract_single")
+    for c in mk:
+        textual = [cd for cd, pol in q.facts_at(es, c) if pol and isinstance(cd, ast.Call) and attr_tail(cd) == "is_path_valid" and cd.args
+                   and isinstance(cd.args[0], ast.Call) and attr_tail(cd.args[0]) == "joinpath"]
+        ctx.check(not textual, rule, es, c, "a link's target is not judged by collapsing '..' textually",
+                  (f"`{norm(textual[0])}` " if textual else "") + "must hold before a symbolic link is created: the text of the target is collapsed without following the links it passes through, so a link "
+                  "of the tree such as u -> s/../../../t (s -> a/b/c/d; really a/t, inside) is refused with 'Symlink point out of target directory' and the tree is not reproduced",
+                  construct="textual containment test on link targets")
+
+
 def r02_10(ctx: Ctx, rule: str = "R02.10") -> None:
     """writeall: the entry of the top directory is left out only when it would have no name ('.', i.e. no arcname given): the test that
     skips `write(path, arcname)` for a directory consults `arcname`.  Skipping whenever the directory happens to BE the working
@@ -394,6 +450,8 @@ def r02_10(ctx: Ctx, rule: str = "R02.10") -> None:
 def run(ctx: Ctx) -> None:
     r02_8(ctx)
     r02_9(ctx)
+    r02_11(ctx)
+    r02_12(ctx)
     r02_10(ctx)
     r02_6(ctx)
     from . import c07 as _c07, c03 as _c03
